@@ -53,6 +53,26 @@ func lookupIntrinsic(ex *Exec, fn *ssa.Function) intrinsic {
 	if strings.HasSuffix(pkg, "/internal/logutil") {
 		return zeroResult
 	}
+	if pkg == "unicode" && fn.Signature.Recv() == nil && fn.Name() != "init" && fn.Signature.Params().Len() > 0 {
+		// table-driven character classification: exact for concrete runes, unconstrained result for symbolic ones
+		return func(ex *Exec, fn *ssa.Function, args []Value) Value {
+			if nat := nativeCall(ex, fn, args); nat != nil {
+				return nat.v
+			}
+			res := fn.Signature.Results()
+			if res.Len() == 1 {
+				ex.timeSeq++
+				ex.intrUsed["unicode."+fn.Name()+" of a symbolic rune: unconstrained result (over-approximation)"] = true
+				if w, _, ok := intWidth(res.At(0).Type()); ok {
+					return IntV{ex.tf.Var(fmt.Sprintf("unicode.%s#%d.%d", fn.Name(), len(ex.decs), ex.timeSeq), w)}
+				}
+				if b, ok := res.At(0).Type().Underlying().(*types.Basic); ok && b.Info()&types.IsBoolean != 0 {
+					return BoolV{ex.tf.Var(fmt.Sprintf("unicode.%s#%d.%d", fn.Name(), len(ex.decs), ex.timeSeq), 0)}
+				}
+			}
+			panic(unsupported{"unicode." + fn.Name() + " with symbolic arguments"})
+		}
+	}
 	// harness-provided stub for a dependency function (only consulted when an argument is symbolic)
 	if st := ex.eng.stubFor(ex, fn); st != nil {
 		return func(ex *Exec, _ *ssa.Function, args []Value) Value {
@@ -403,6 +423,7 @@ func init() {
 		"ConcreteBuffersPlaceholder":   zeroResult,
 		"internal/bytealg.CountString": intrCountByte,
 		"internal/bytealg.Count":       intrCountByte,
+		"strings.EqualFold":            intrEqualFold,
 		"strings.ToLower":              intrCaseMap(false),
 		"strings.ToUpper":              intrCaseMap(true),
 		"internal/bytealg.MakeNoZero": func(ex *Exec, fn *ssa.Function, args []Value) Value {
@@ -875,4 +896,42 @@ func intrCaseMap(upper bool) intrinsic {
 		ex.addPC(tf.Ule(ln, tf.Const(64, 3*n)))
 		return StrV{Mem: newLayer(layer{kind: lArr, whole: true, arr: name}), Off: tf.Const(64, 0), N: ln}
 	}
+}
+
+// strings.EqualFold on symbolic strings: exact for ASCII content (byte-wise comparison ignoring ASCII case);
+// if some byte is not ASCII the result is unconstrained (over-approximation, listed in the evidence).
+func intrEqualFold(ex *Exec, fn *ssa.Function, args []Value) Value {
+	tf := ex.tf
+	if nat := nativeCall(ex, fn, args); nat != nil {
+		return nat.v
+	}
+	a, b := args[0].(StrV), args[1].(StrV)
+	la, lb := ex.strLen(a), ex.strLen(b)
+	na := ex.concretize(la, "length of folded string")
+	nb := ex.concretize(lb, "length of folded string")
+	var ascii []*Term
+	lower := func(c *Term) *Term {
+		in := tf.BAnd(tf.Ule(tf.Const(8, 'A'), c), tf.Ule(c, tf.Const(8, 'Z')))
+		return tf.Ite(in, tf.Add(c, tf.Const(8, 32)), c)
+	}
+	var eq []*Term
+	for k := uint64(0); k < na; k++ {
+		ascii = append(ascii, tf.Ult(ex.strByte(a, tf.Const(64, k)), tf.Const(8, 0x80)))
+	}
+	for k := uint64(0); k < nb; k++ {
+		ascii = append(ascii, tf.Ult(ex.strByte(b, tf.Const(64, k)), tf.Const(8, 0x80)))
+	}
+	if ex.branch(tf.BAnd(ascii...)) {
+		if na != nb {
+			return BoolV{tf.False}
+		}
+		for k := uint64(0); k < na; k++ {
+			kt := tf.Const(64, k)
+			eq = append(eq, tf.Eq(lower(ex.strByte(a, kt)), lower(ex.strByte(b, kt))))
+		}
+		return BoolV{tf.BAnd(eq...)}
+	}
+	ex.timeSeq++
+	ex.intrUsed["strings.EqualFold of non-ASCII symbolic text: unconstrained result (over-approximation)"] = true
+	return BoolV{tf.Var(fmt.Sprintf("equalfold#%d.%d", len(ex.decs), ex.timeSeq), 0)}
 }
